@@ -80,6 +80,7 @@ fn lines() {
             "stall" => engine::run_stall(&toks[1..]),
             "seg" => segfile::run_seg(&toks[1..]),
             "sgo" => segfile::run_sgo(&toks[1..]),
+            "pubs" => segfile::run_pubs(&toks[1..]),
             "pol" => poller::run(&toks[1..]),
             "polt" => poller::run_timed(&toks[1..]),
             "wld" => world::run(&toks[1..]),
